@@ -76,6 +76,17 @@ func (g *Buf) Fill(src []byte) *Buf {
 	return g
 }
 
+// ReadOnly makes the accessible pages read-only (call after Fill): an input the callee may only read. A write faults.
+func (g *Buf) ReadOnly() *Buf {
+	if err := syscall.Mprotect(g.data, syscall.PROT_READ); err != nil {
+		panic(err)
+	}
+	return g
+}
+
+// RO returns a read-only copy of src whose last byte is followed by an inaccessible page.
+func RO(src []byte) *Buf { return End(len(src)).Fill(src).ReadOnly() }
+
 // Ptr returns the address of the first byte (also for n == 0, where it is the guard boundary itself).
 func (g *Buf) Ptr() unsafe.Pointer { return unsafe.Pointer(&g.data[:g.off+1][g.off:][0:1][0]) }
 
@@ -96,7 +107,7 @@ func (g *Buf) CanariesIntact(upto int) (bool, int) {
 
 // Free unmaps the region.
 func (g *Buf) Free() {
-	if g.region != nil {
+	if g != nil && g.region != nil {
 		syscall.Mprotect(g.region, syscall.PROT_READ|syscall.PROT_WRITE)
 		syscall.Munmap(g.region)
 		g.region, g.data, g.B = nil, nil, nil
